@@ -177,11 +177,14 @@ def data_line(arch, kind, payload, labels):
     if kind == "ptr":
         lab = labels[payload % len(labels)]
         cst = (payload * 2654435761) & ((1 << (8 * ptr)) - 1)
+        # the operand is the bare label, or a label expression (label + constant)
+        add = (4 if (payload >> 3) % 3 == 1 else 0x10) if (payload >> 3) % 3 else 0
+        ref = lab if not add else "%s + 0x%x" % (lab, add)
         if ptr == 4:
-            return ["data", ".long %s, 0x%x" % (lab, cst),
-                    [["l", lab, 4], ["b", cst.to_bytes(4, "little").hex()]], 8]
-        return ["data", ".word %s, 0x%x" % (lab, cst),
-                [["l", lab, 2], ["b", cst.to_bytes(2, "little").hex()]], 4]
+            return ["data", ".long %s, 0x%x" % (ref, cst),
+                    [["l", lab, 4, add], ["b", cst.to_bytes(4, "little").hex()]], 8]
+        return ["data", ".word %s, 0x%x" % (ref, cst),
+                [["l", lab, 2, add], ["b", cst.to_bytes(2, "little").hex()]], 4]
     raise ValueError(kind)
 
 
@@ -565,7 +568,7 @@ def judge(case, stats=None):
                     o = off_of(it[1])
                     if o is None:
                         return ("%s:label-unplaced" % arch, "label %s has no offset; %s" % (it[1], desc))
-                    exp = (o & ((1 << (8 * it[2])) - 1)).to_bytes(it[2], "little")
+                    exp = ((o + (it[3] if len(it) > 3 else 0)) & ((1 << (8 * it[2])) - 1)).to_bytes(it[2], "little")
                     what = "label"
                 rng = range(pos, pos + len(exp))
                 got = window(pos, len(exp))
